@@ -2,7 +2,7 @@
 # sweep.sh <tier> <seeds...> : run every check on SNAPSHOTS of /repo and /verif with several seeds, evidence and
 # replays under /tmp/xv_sweep (not the committed evidence); one summary line per run in /tmp/xv_sweep/summary.txt
 TIER="$1"; shift
-OUT=/tmp/xv_sweep; SNAP=$OUT/repo; VSNAP=$OUT/verif
+OUT=${XV_SWEEP_OUT:-/tmp/xv_sweep}; SNAP=$OUT/repo; VSNAP=$OUT/verif
 mkdir -p $OUT; rm -rf $SNAP $VSNAP
 rsync -a --exclude .git /repo/ $SNAP/
 rsync -a --exclude .git --exclude out --exclude evidence /verif/ $VSNAP/
